@@ -11,6 +11,7 @@ THEOREMS = ["KaVerif.C11_spans", "KaVerif.C11_total", "KaVerif.C11_token_span", 
             "KaVerif.C11_longest_const", "KaVerif.C11_const_complete", "KaVerif.C11_int_value_ctx", "KaVerif.C11_int_value",
             "KaVerif.C11_based_value", "KaVerif.C11_sci_value", "KaVerif.C11_range_split", "KaVerif.C11_keywords_table",
             "KaVerif.C11_keywords", "KaVerif.C11_closing_string", "KaVerif.C11_closing_instant",
+            "KaVerif.C11_whitespace_insensitive", "KaVerif.C11_whitespace_tags_values",
             "KaVerif.Lexer.constTokens_prefixOrdered", "KaVerif.Lexer.alphaTokens_noPrefix", "KaVerif.Lexer.constTokens_noSpace",
             "KaVerif.Lexer.alphaTokens_facts"]
 RULE = ("every string up to length 3 (quick) / 4 (thorough) over a 30-character core alphabet "
